@@ -402,6 +402,12 @@ func c09Drive(c *fw.Ctx, nChains, blocks, workers int, withMutants bool) {
 func runC09(c *fw.Ctx) {
 	c.Res.Rule = "random valid blocks (all modes/eras) and their double-use / structure mutants: deep snapshots of block, supplement, state and tracked proofs before/after ValidateBlock, ApplyBlock, RevertBlock and the step-by-step path; repeated calls; decode(encode(b)) copies through the multiproof form; 8 concurrent callers per valid block (also re-run under the race detector); step-by-step verdict == block verdict; Copy()/DeepCopy() independence by mutating every slice reachable in the copy. Non-trivial = block with transactions or any mutant."
 	c09Drive(c, c.Budget(16, 600), c.Budget(30, 60), 8, true)
+	// Share/Move/Copy scripts on real StateElements against the Lean aliasing model
+	if a := fw.Lookup("C09A"); a != nil {
+		rule := c.Res.Rule
+		a(c)
+		c.Res.Rule = rule + " PLUS: " + c.Res.Rule
+	}
 	// race-detector sub-run
 	if bin := os.Getenv("VERIF_RACE_BIN"); bin != "" {
 		cmd := exec.Command(bin, "-prop", "C09R", "-tier", c.Tier, "-seed", fmt.Sprint(c.Seed))
